@@ -28,6 +28,19 @@ def _to_literal(value):
         return value
 
 
+def _value_alignment(member):
+    """ Wire alignment of the member's type itself (member.alignment may be raised to its block's alignment). """
+    node = member.definition
+    while isinstance(node, model.Typedef) and node.definition:
+        node = node.definition
+    if isinstance(node, (model.Struct, model.Union)):
+        return node.alignment
+    if isinstance(node, model.Enum):
+        return model.ENUM_SIZE
+    type_name = node.type_name if isinstance(node, model.Typedef) else member.type_name
+    return model.BUILTIN_SIZES.get(type_name, 1)
+
+
 class _Padder(object):
     PADDINGS = (
         (1, 'uint8_t'),
@@ -121,7 +134,11 @@ class _HppDefinitionsTranslator(TranslatorBase):
             else:
                 field = '{0} {1};\n'.format(typename, member.name)
             if member.optional:
-                field = 'prophy::bool_t has_{0};\n'.format(member.name) + field
+                flag = 'prophy::bool_t has_{0};\n'.format(member.name)
+                value_alignment = _value_alignment(member)
+                if value_alignment > model.DISC_SIZE:
+                    flag += padder.generate_padding(value_alignment - model.DISC_SIZE)
+                field = flag + field
             if member.padding is not None and member.padding > 0:
                 field += padder.generate_padding(member.padding)
             return field
